@@ -16,13 +16,13 @@ const char* const opnames[] = {"request", "invoke_exclusive", nullptr};
 
 // ---- poisoning allocator for publication records: memory is never reused, freed blocks must stay 0xDD
 struct Grave { void* p; size_t n; };
-static std::vector<Grave>* g_graves; static Ctx* g_ctx;
+static std::vector<Grave>* g_graves; static Ctx* g_ctx; static long g_rec_alloc, g_rec_free;
 template <class T> struct PoisonAlloc {
     typedef T value_type; typedef T* pointer; typedef const T* const_pointer; typedef T& reference; typedef const T& const_reference; typedef size_t size_type; typedef ptrdiff_t difference_type;
     template <class U> struct rebind { typedef PoisonAlloc<U> other; };
     PoisonAlloc() {} template <class U> PoisonAlloc(const PoisonAlloc<U>&) {}
-    T* allocate(size_t n, const void* = nullptr) { g_ctx->probe("pubrecords_allocated"); return (T*)::operator new(n * sizeof(T)); }
-    void deallocate(T* p, size_t n) { memset((void*)p, 0xDD, n * sizeof(T)); g_graves->push_back(Grave{p, n * sizeof(T)}); g_ctx->probe("pubrecords_freed"); }
+    T* allocate(size_t n, const void* = nullptr) { ++g_rec_alloc; g_ctx->probe("pubrecords_allocated"); return (T*)::operator new(n * sizeof(T)); }
+    void deallocate(T* p, size_t n) { memset((void*)p, 0xDD, n * sizeof(T)); g_graves->push_back(Grave{p, n * sizeof(T)}); ++g_rec_free; g_ctx->probe("pubrecords_freed"); }
     template <class U, class... A> void construct(U* p, A&&... a) { new ((void*)p) U(std::forward<A>(a)...); }
     template <class U> void destroy(U* p) { p->~U(); }
     size_t max_size() const { return size_t(-1) / sizeof(T); }
@@ -63,7 +63,7 @@ template <class Wait> struct traits_mutex : traits_of<Wait> { typedef std::mutex
 
 template <class Traits> void run(Ctx& ctx) {
     const Program& P = *ctx.prog; g_ctx = &ctx;
-    std::vector<Grave> graves; g_graves = &graves;
+    std::vector<Grave> graves; g_graves = &graves; g_rec_alloc = g_rec_free = 0;
     int total = 0; for (auto& t : P.threads) for (auto& o : t.ops) if (o.id >= total) total = o.id + 1;
     std::vector<Req> reqs(total + 1, Req{0, 0, 0});
     {
@@ -85,6 +85,8 @@ template <class Traits> void run(Ctx& ctx) {
         auto const& st = tiny.m_fc.statistics();
         ctx.probe("fc_combining_passes", (long)st.m_nCombiningCount.get()); ctx.probe("fc_pubrecords_deleted", (long)st.m_nPubRecordDeleted.get()); ctx.probe("fc_compact_list", (long)st.m_nCompactPublicationList.get()); ctx.probe("fc_passive_to_combiner", (long)st.m_nPassiveToCombiner.get()); ctx.probe("fc_wakeups_by_notify", (long)st.m_nWakeupByNotifying.get());
     }
+    // all client threads have exited and the kernel is destroyed: every publication record must have been reclaimed (by compact_list or by ~kernel)
+    if (g_rec_alloc != g_rec_free) ctx.fail("record-leaked", "%ld publication records were allocated but only %ld were freed although every thread has exited and the kernel was destroyed", g_rec_alloc, g_rec_free);
     // every request of a finished client was executed exactly once (checked at return); freed records must be untouched
     for (auto& g : graves) { const unsigned char* b = (const unsigned char*)g.p; for (size_t i = 0; i < g.n; i++) if (b[i] != 0xDD) { ctx.fail("freed-record-written", "a publication record was written to after it had been freed (offset %zu)", i); break; } ::operator delete(g.p); }
     g_graves = nullptr; g_ctx = nullptr;
